@@ -98,10 +98,35 @@ ENGA_ASSUME = [
 ]
 
 
+def grid_run(grid, tier, nshards=None):
+    binary, _bt = vlib.build("enga")
+    return vlib.merge(sharded(binary, tier, nshards or vlib.NCPU, extra=["-grid", grid]))
+
+
+GRIDS = {"C04": "c04", "C05": "c05"}
+
+
 def enga_check(prop, tier, t0, what):
     m, cov = enga_run(prop, tier)
     cov["explanation"] = what
-    return vlib.finish(prop, tier, "model_checking", m, cov, ENGA_ASSUME, t0)
+    assume = list(ENGA_ASSUME)
+    if prop in GRIDS:
+        g = grid_run(GRIDS[prop], tier)
+        m["violations"].extend(g["violations"])
+        m["exhaustive"] = m["exhaustive"] and g["exhaustive"]
+        m["samples"] = (m["samples"][:6] + g["samples"][:6])
+        for k, v in g["counters"].items():
+            if not k.startswith("violations:"):
+                cov["grid_" + k] = int(v)
+        cov["grid_distinct"] = len(g["distinct_keys"])
+        cov["evaluations"] = cov["transitions"] + int(g["counters"].get("evaluations", 0))
+        cov["distinct_nontrivial"] = cov["distinct_step_outputs"] + len(g["distinct_keys"])
+    if prop == "C04":
+        cov["explanation"] += "; plus the arithmetic grid on the real device: every base note 0-127 x every (octave, semitone) in [-14,14]^2 reached by real action presses x velocities, the full 16x16 channel x offset table on three pitches (thorough: 130 presses of every octave/semitone action)"
+        assume.append("grid: octave and semitone within +-14 (thorough: single-parameter walks to +-130)")
+    if prop == "C05":
+        cov["explanation"] += "; plus corner configurations (default channel, velocity, key/axis offsets, CC numbers at and beyond their limits): the real parser decides, every accepted configuration is driven with all keys, panic on every channel and every raw value of every 8-bit axis"
+    return vlib.finish(prop, tier, "model_checking", m, cov, assume, t0)
 
 
 for _pid, _what in {
@@ -109,6 +134,7 @@ for _pid, _what in {
     "C02": "BFS to a fixpoint x pairing monitor: every NoteOff of a release carries the (channel,pitch) of that key's press; action steps emit nothing",
     "C03": "BFS to a fixpoint x collision monitor: per-step message list equals the list prescribed by the mode for the monitor's own holder count",
     "C04": "BFS to a fixpoint over all action press/release orders x arithmetic monitor (Device.State() and NoteOn pitch/channel/velocity against an unbounded-int reference)",
+    "C05": "well-formedness monitor on every transition of the key, panic, CC and key-emulation state graphs",
     "C13": "BFS to a fixpoint x panic monitor: burst content + differential against a shadow device that never sees the panic key",
     "C14": "BFS to a fixpoint x exit-sequence monitor: signal iff the press completes the sequence; that press is swallowed",
     "C07": "BFS to a fixpoint over axis position sequences x CC receiver monitor",
@@ -117,3 +143,16 @@ for _pid, _what in {
     def _mk(what):
         return lambda prop, tier, t0: enga_check(prop, tier, t0, what)
     REGISTRY[_pid] = _mk(_what)
+
+
+@check("C06")
+def c06(prop, tier, t0):
+    m = grid_run("c06", tier)
+    cov = generic_cov(m, "fresh real device per configuration variant {signed 8-bit, unsigned 8-bit, hat, signed 16-bit} x deadzone source {per-axis table, per-handler default} x deadzone x flip x deadzone_at_center x {CC, bidirectional CC, pitch bend}; "
+                         "8-bit axes: EVERY ordered pair (previous raw, new raw); 16-bit: edge neighbourhoods + every 257th value after 5 previous values; compared at the receiver with an exact-rational reference "
+                         "(within one step, monotonic, end stops exact, rest value exact); plus end stops/centre for every deadzone 0.00..0.99. distinct_nontrivial = configuration variants driven.")
+    return vlib.finish(prop, tier, "exploration", m, cov, [
+        "axes whose AbsInfo has max <= 0 or min > max are outside 'within the axis' reported range'",
+        "the global default deadzone (sub-handler \"\" fallback) is unreachable through the parser (it always records a per-handler default) and is not enumerated",
+        "an observable for which nothing was ever transmitted is not judged",
+    ], t0)
